@@ -196,4 +196,10 @@ def run(P, R, tier):
     holds.hard_hold_sites(P, R, 'C03.GRD.1')
     timer(P, R)
     gate_relations(P, R)
+    # a reply keyword with a CR glued to it is not recognised and the client waits forever
+    from . import c08, c10
+    c08.line_splitting(P, R, 'C03.TAB.1')
+    # the timeout is the last resort against a silent service: one timer per request, armed once, with the configured value
+    cl10 = c10.cleanup_fn(P, Remap(R, {'C10.MPT.1': 'C03.TMR.1', 'C10.WIRE.1': 'C03.TMR.1'}))
+    c10.timer_lifecycle(P, Remap(R, {'C10.WMC.2': 'C03.TMR.1'}), cl10)
     return EXPLANATION, ASSUMPTIONS
